@@ -194,9 +194,14 @@ def run_cbmc(obl, final, wd, unwind, unwindset, timeout, extra=(), tagsuffix='')
         rssf = os.path.join(wd, 'rss.%s.txt' % tag)
         cmd = base + _backend_flags(b)
         fo = open(outp, 'wb')
+        # private TMPDIR per solver process: cbmc writes multi-GB external-sat*.cnf files there and leaves them behind when killed
+        tmpd = os.path.join(wd, 'tmp.%s%s' % (tag, tagsuffix))
+        shutil.rmtree(tmpd, ignore_errors=True)
+        os.makedirs(tmpd, exist_ok=True)
+        env = dict(os.environ, TMPDIR=tmpd, TMP=tmpd, TEMP=tmpd)
         p = subprocess.Popen(['/usr/bin/time', '-f', 'MAXRSS_KB=%M', '-o', rssf] + cmd,
-                             stdout=fo, stderr=subprocess.DEVNULL, preexec_fn=_limit(obl.mem_gb))
-        procs.append({'p': p, 'fo': fo, 'out': outp, 'rss': rssf, 'cmd': cmd, 'tag': tag})
+                             stdout=fo, stderr=subprocess.DEVNULL, preexec_fn=_limit(obl.mem_gb), env=env)
+        procs.append({'p': p, 'fo': fo, 'out': outp, 'rss': rssf, 'cmd': cmd, 'tag': tag, 'tmpd': tmpd})
     winner = None
     status = 'ok'
     while True:
@@ -237,6 +242,7 @@ def run_cbmc(obl, final, wd, unwind, unwindset, timeout, extra=(), tagsuffix='')
             pr['fo'].close()
         except Exception:
             pass
+        shutil.rmtree(pr['tmpd'], ignore_errors=True)
     wall = time.time() - t0
     if winner is None:
         part = [pr for pr in procs if pr.get('partial')]
